@@ -6,6 +6,7 @@ package main
 // variants and QuoInt truncate toward zero. Coins: amount per denomination.
 
 import (
+	"go/types"
 	"math/big"
 
 	"golang.org/x/tools/go/ssa"
@@ -439,4 +440,28 @@ func init() {
 		back := scale(ex, "coins.mulint", "(* (select a d) x)", whole, ex.decP())
 		return []*Term{whole, coinsSub(ex, a[0], back)}, true
 	})
+}
+
+// slices / sort functions that write the elements of the slice they are given: the element component of that
+// slice type is havocked (they are not "pure": the caller's backing array changes), results are unconstrained.
+func init() {
+	mut := func(fr *Frame, st *State, c *ssa.CallCommon, a []*Term) ([]*Term, bool) {
+		ex := fr.ex
+		if len(c.Args) == 0 {
+			return nil, false
+		}
+		sl, ok := types.Unalias(c.Args[0].Type()).Underlying().(*types.Slice)
+		if !ok {
+			return nil, false
+		}
+		ex.havocComps(st, []string{ex.eComp(sl.Elem())})
+		return fr.freshResults(st, c.Signature(), "slices"), true
+	}
+	for _, n := range []string{"slices.Sort", "slices.SortFunc", "slices.SortStableFunc", "slices.Reverse", "slices.Delete", "slices.DeleteFunc",
+		"slices.Insert", "slices.Compact", "slices.CompactFunc", "slices.Replace",
+		"golang.org/x/exp/slices.Sort", "golang.org/x/exp/slices.SortFunc", "golang.org/x/exp/slices.SortStableFunc", "golang.org/x/exp/slices.Reverse",
+		"golang.org/x/exp/slices.Delete", "golang.org/x/exp/slices.Insert", "golang.org/x/exp/slices.Compact", "golang.org/x/exp/slices.CompactFunc", "golang.org/x/exp/slices.Replace",
+		"sort.Strings", "sort.Ints", "sort.Float64s", "sort.Slice", "sort.SliceStable"} {
+		reg(n, mut)
+	}
 }
